@@ -359,6 +359,45 @@ def bnd_short_histories(tier, seed):
             "rule": "distinct = histories; evaluations = judged steps", "samples": [["connect", 1, "close", "connect", 0]]}
 
 
+@fd("C05", "accept-receive-interleaving")
+def fd_accept_interleaving():
+    """The schedule clause of the property: a Select.req (or a data message) that is already in the receive buffer when
+    the connection is accepted.  The interleaving is forced, not left to the scheduler: the connect transition is delayed
+    until the dispatcher - if it is already running - has handled what is buffered."""
+    obs = []
+    for mode in ("passive",):
+        for first, label in ((H.frame(stype=1, system=0x4242, session=0xFFFF), "select-req"), (H.frame(0, 0x4343, 1, 1, True, b""), "data")):
+            proto, conn, log = H.make_hsms(mode=mode)
+            try:
+                proto.enable()
+                real_connect = proto._connection_state.connect
+
+                def slow_connect(real_connect=real_connect, conn=conn):
+                    H.wait_until(lambda: len(conn.sent) > 0, 0.4)
+                    real_connect()
+                proto._connection_state.connect = slow_connect
+                conn.feed(first)
+                conn.connect()
+                H.wait_until(lambda: len(conn.frames()) >= 1, 2.0)
+                H.quiesce(proto, 1.0)
+                state = state_of(proto)
+                frames = [(f["stype"], f["system"], f["function"]) for f in conn.frames()]
+                if label == "select-req":
+                    ok = state == S and frames == [(2, 0x4242, 0)]
+                    conn.feed(H.frame(0, 0x77, 1, 1, True, b""))
+                    H.wait_until(lambda: len(log["message_received"]) == 1, 1.0)
+                    ok = ok and [m[0] for m in log["message_received"]] == [0x77] and not [f for f in conn.frames() if f["stype"] == 7]
+                    detail = "a Select.req in flight when the connection is accepted must select the session (Select.rsp, SELECTED, following data delivered)"
+                else:
+                    ok = state == NS and frames == [(7, 0x4343, 4)] and not log["message_received"]
+                    detail = "a data message in flight when the connection is accepted is rejected (not selected), never delivered"
+                obs.append({"name": f"{label}-in-flight-at-accept", "ok": ok, "witness": {"state": state, "frames": frames, "delivered": [m[0] for m in log["message_received"]]}, "detail": detail})
+            finally:
+                H.shutdown(proto, conn)
+    return {"obligations": obs, "domain": "{Select.req, data message} buffered before the accept handler runs, connect transition delayed (forced interleaving)",
+            "size": len(obs), "exhaustive": True, "samples": [{"in_flight": "select-req"}]}
+
+
 @fd("C05", "state-machine-contracts")
 def fd_state_machine_contracts():
     """The assumed call-site contracts of ConnectionStateMachine.select/deselect (contracts/C05_session.py) are read
